@@ -303,6 +303,47 @@ func extractC20() *lean {
 		return true
 	})
 	l.def("clientStrictAssignments", "List String", leanStrList(hset), hset)
+	// … and is that assignment unconditional: a top-level statement of its function, with no `return` anywhere before it,
+	// in a function that Configure calls unconditionally (top-level call, no return-with-nil before it)
+	uncond := false
+	var holder string
+	for _, d := range he.Decls {
+		fd, ok := d.(*ast.FuncDecl)
+		if !ok || fd.Body == nil {
+			continue
+		}
+		seenReturn := false
+		for _, st := range fd.Body.List {
+			if as, ok := st.(*ast.AssignStmt); ok && len(as.Lhs) == 1 && c20Cond(as.Lhs[0]) == "client.StrictMode" {
+				uncond = !seenReturn
+				holder = fd.Name.Name
+			}
+			ast.Inspect(st, func(n ast.Node) bool {
+				if _, ok := n.(*ast.ReturnStmt); ok {
+					seenReturn = true
+				}
+				return true
+			})
+		}
+	}
+	calledFirst := holder == "Configure"
+	if holder != "" && holder != "Configure" {
+		for _, d := range he.Decls {
+			if fd, ok := d.(*ast.FuncDecl); ok && fd.Name.Name == "Configure" && fd.Body != nil {
+				for _, st := range fd.Body.List {
+					if es, ok := st.(*ast.ExprStmt); ok {
+						if c, ok := es.X.(*ast.CallExpr); ok && strings.HasSuffix(c20Cond(c.Fun), "."+holder) {
+							calledFirst = true
+						}
+					}
+					if _, ok := st.(*ast.ExprStmt); !ok {
+						break // anything else (an if that may return, …) before the call makes it conditional
+					}
+				}
+			}
+		}
+	}
+	l.def("clientStrictAssignmentUnconditional", "Bool", fmt.Sprint(uncond && calledFirst), uncond && calledFirst)
 
 	// auth.go: is the IAM client's strict flag (auth.strictMode) ever assigned, and from what?
 	_, au := parseFile("auth/auth.go")
